@@ -88,3 +88,7 @@ pub proof fn lemma_enum_seq(l: Seq<Kv>, r: Seq<Kv>, t0: Seq<Call>)
         lemma_enum_concat(l, r, t0, t1, t2, b);
     }
 }
+
+// std (trusted): the two predicates a maintainer could test a visitor's / an enumeration's result with
+pub assume_specification<B, C> [ControlFlow::<B, C>::is_break](c: &ControlFlow<B, C>) -> (r: bool) ensures r == (c is Break);
+pub assume_specification<B, C> [ControlFlow::<B, C>::is_continue](c: &ControlFlow<B, C>) -> (r: bool) ensures r == (c is Continue);
